@@ -42,6 +42,78 @@ func selfCalls(fn *ssa.Function) []*ssa.Call {
 	return out
 }
 
+// encCall: a call in fn that encodes one (key, node) pair by recursion — the recursive call itself, or a call of a local closure /
+// helper that hands its argument on to exactly one recursive call which every successful return of the helper has passed.
+type encCall struct {
+	call *ssa.Call
+	args []ssa.Value // the recursive call's arguments as values of fn (nil where not resolvable)
+}
+
+func (p *Prog) encodeCalls(fn *ssa.Function) []encCall {
+	var out []encCall
+	eachInstr(fn, func(b *ssa.BasicBlock, in ssa.Instruction) {
+		c, ok := in.(*ssa.Call)
+		if !ok {
+			return
+		}
+		g := staticCallee(&c.Call)
+		if g == fn {
+			out = append(out, encCall{c, c.Call.Args})
+			return
+		}
+		if g == nil || !p.InModule(g) || len(g.Blocks) == 0 {
+			return
+		}
+		var inner []*ssa.Call
+		eachInstr(g, func(b2 *ssa.BasicBlock, in2 ssa.Instruction) {
+			if c2, ok := in2.(*ssa.Call); ok && staticCallee(&c2.Call) == fn {
+				inner = append(inner, c2)
+			}
+		})
+		if len(inner) != 1 {
+			return
+		}
+		sc := inner[0]
+		// every return that may report success is dominated by the recursive call
+		okDom := true
+		eachInstr(g, func(b2 *ssa.BasicBlock, in2 ssa.Instruction) {
+			if ret, ok := in2.(*ssa.Return); ok {
+				success := len(ret.Results) == 0
+				for _, res := range ret.Results {
+					if isErrorType(res.Type()) && isNilConst(res) {
+						success = true
+					}
+				}
+				if success && !sc.Block().Dominates(b2) {
+					okDom = false
+				}
+			}
+		})
+		if !okDom {
+			return
+		}
+		args := make([]ssa.Value, len(sc.Call.Args))
+		for i, a := range sc.Call.Args {
+			switch x := a.(type) {
+			case *ssa.Parameter:
+				for j, prm := range g.Params {
+					if prm == x && j < len(c.Call.Args) {
+						args[i] = c.Call.Args[j]
+					}
+				}
+			case *ssa.Const:
+				args[i] = x
+			default:
+				if cv := p.CellValue(a); cv != nil {
+					args[i] = cv
+				}
+			}
+		}
+		out = append(out, encCall{c, args})
+	})
+	return out
+}
+
 // lenGuard: blk is dominated by an edge on which len(v) == k.
 func lenEqGuard(cz *canonizer, v ssa.Value, k int64, blk *ssa.BasicBlock) bool {
 	want := "len(" + cz.of(v) + ")"
